@@ -393,6 +393,15 @@ Proof.
   cbn [dedupe_from]. rewrite Ed, Ei, (IH _ _ E). reflexivity.
 Qed.
 
+(* ... so the second dedupePaths of the pinned NewFilterFS is the identity on what FollowLinks returns *)
+Lemma follow_targets_dedupe_fixpoint_proof gmatch view fuel reqs l :
+  follow_links_opt gmatch view fuel reqs = Ok (Some l) -> dedupe_paths l = Some l.
+Proof.
+  unfold follow_links_opt. destruct (follow_state gmatch view fuel reqs) as [F|]; [|discriminate].
+  intros H. assert (Hf : finish F = Some l) by congruence. clear H. unfold finish, dedupe_paths in Hf. unfold dedupe_paths.
+  apply (dedupe_from_idem _ _ _ Hf).
+Qed.
+
 Lemma side_normalized keys pats : normalize keys = Some pats ->
   side keys = Some (match keys with [] => None | _ => Some pats end).
 Proof. intros H. destruct keys; [reflexivity|]. unfold side. rewrite H. reflexivity. Qed.
@@ -499,8 +508,7 @@ Proof.
     { apply normalize_plain. eapply Forall_impl; [|exact Hkeys]. intros e (cs & Hne & Hp & ->).
       exists cs. split; [exact Hne|]. split; [apply PCN_plainc; exact Hp|reflexivity]. }
     eexists. split.
-    { unfold follow_cfg, follow_includes, mk_cfg. unfold finish, dedupe_paths in Efin.
-      unfold dedupe_paths. rewrite (dedupe_from_idem _ _ _ Efin).
+    { unfold follow_cfg, follow_includes, mk_cfg.
       rewrite (side_normalized res _ Hnorm). cbn [side]. reflexivity. }
     intros r o x Hr Ho Hx.
     apply (walk_contains res); [exact Hkeys|destruct res; reflexivity|apply (Hvalid r o x Ho Hx)|].
